@@ -103,11 +103,14 @@ def run(ctx):
                 exp = arr(v["res"])
             elif mode == "bbox":
                 boxes = []
+                none_style = ctx.rng.random() < 0.5
                 for b in sel:
                     bb = {}
                     for key, val, sc in (("fmin", b[0], 20.0), ("fmax", b[1], 20.0), ("dmin", b[2], 1.0), ("dmax", b[3], 1.0)):
                         if val != -1:
                             bb[key] = val / sc
+                        elif none_style:
+                            bb[key] = None          # an omitted limit may also be spelled as an explicit None
                     boxes.append(bb)
                 try:
                     out = da.spec.partition.bbox(boxes)
